@@ -333,3 +333,37 @@ def run(ck, facts):
         ck.expect(handled, "R6", "cpp-callback-arg/" + w, "fn_traits handles " + w,
                   "the gate accepts %s as a callback parameter (%s) and the C++ backend declares the std::function argument as %s<..>, but fn_traits::replace / replace_fn_t have no case for "
                   "it: the generated header does not compile" % (human, acc[:2], w), "tool/templates/cpp/runtime.hpp.jinja")
+
+    # ---------------- R3 (cont.) a type is never named against a throw-away header (its include would be lost)
+    nty = 0
+    for f in tool.fn_list:
+        if "hir" not in f or not re.search(r"^diplomat_tool::c::", f["path"]) or f.get("exp"):   # the C backend builds the header it names types against; C++ only borrows C type names for expressions
+            continue
+        for n in C.walk(C.fn_body(f)):
+            if n.get("k") == "mcall" and n.get("m") in ("gen_ty_name", "gen_type_name", "gen_result_ty", "gen_struct_name") and len(n.get("a", [])) >= 2:
+                nty += 1
+                fresh = [C.callee(y) or y.get("m") for a in n["a"] for y in C.walk(a) if y.get("k") in ("call", "mcall", "struct") and
+                         (re.search(r"::header::Header$", (y.get("ty") or y.get("adt") or "")) is not None or re.search(r"Header::(new|default)$", C.callee(y) or "") is not None)]
+                if fresh:
+                    ck.bad("R3", "%s/%s-into-fresh-header" % (C.norm_path(f["path"]).replace("diplomat_tool::", ""), n["m"]),
+                           "a type is named with `%s` against a freshly constructed header (%s): the include / forward declaration recorded for it is thrown away, so the generated header uses a type it never declares" % (n["m"], fresh[0]), C.loc(f, n.get("ln")))
+    ck.expect(nty >= 4, "R3", "c+cpp/type-naming-sites", "%d naming calls pass the caller's header" % nty, "only %d type-naming calls with a header argument found in the C/C++ backends" % nty)
+
+    # ---------------- R5 (cont.) Send and Sync are emitted independently of each other
+    gbf = mac.fn("gen_bridge")
+    marker = {}
+    for n, st in C.with_conditions(C.fn_body(gbf)):
+        if n.get("k") == "macro" and n.get("name") in ("parse_quote", "quote"):
+            mm = re.search(r"unsafe\s+impl\s+std\s*::\s*marker\s*::\s*(Send|Sync)\s+for", n.get("src", ""))
+            if not mm:
+                continue
+            flags = []
+            for kind, a, b in st:
+                if kind == "if":
+                    fl = sorted({y["n"] for y in C.walk(a) if y.get("k") == "field" and y["n"] in ("is_send", "is_sync")})
+                    if fl:
+                        flags.append((tuple(fl), b))
+            marker[mm.group(1)] = flags
+    ck.expect(marker.get("Send") == [(("is_send",), "t")] and marker.get("Sync") == [(("is_sync",), "t")], "R5", "macro::gen_bridge/send-sync-independent", str(marker),
+              "the `unsafe impl Send/Sync` items for a trait wrapper are emitted under %s (expected: Send iff is_send, Sync iff is_sync): a trait declared with both bounds "
+              "loses one of them and the expansion no longer type-checks where that bound is required" % marker, C.loc(gbf))
